@@ -12,6 +12,7 @@ require (
 	github.com/zitadel/oidc/v3 v3.0.0
 	golang.org/x/net v0.36.0
 	golang.org/x/oauth2 v0.29.0
+	golang.org/x/text v0.24.0
 )
 
 require (
@@ -29,7 +30,6 @@ require (
 	go.opentelemetry.io/otel/trace v1.29.0 // indirect
 	golang.org/x/crypto v0.35.0 // indirect
 	golang.org/x/sys v0.30.0 // indirect
-	golang.org/x/text v0.24.0 // indirect
 )
 
 replace github.com/zitadel/oidc/v3 => /repo
